@@ -233,6 +233,11 @@ func c14(r *Report) {
 	})
 
 	r.Guard("C14.R3", "Connection-listed header names are trimmed and canonicalised, and all Connection lines are read", func() {
+		// stripping is a pure function of the message: no cache or other package-level
+		// state (a memo keyed by part of the Connection header serves one message the
+		// answer computed for another)
+		statelessRule(r, w.Fn("header", "removeHopByHopHeaders"), map[string]bool{"hopByHopHeaders": true}, "what is stripped from one message depends on what earlier messages contained")
+
 		var del *ssa.Call
 		for _, c := range plainCalls(rm, "(net/http.Header).Del") {
 			if anyIn(w.backSlice(c.Call.Args[1], flowOpt{Through: map[string]bool{"net/http.CanonicalHeaderKey": true, "strings.TrimSpace": true}}), func(v ssa.Value) bool { return isCallValue(v, "strings.Split") }) {
@@ -456,6 +461,36 @@ func c14(r *Report) {
 	})
 
 	r.Guard("C14.R6", "Via is appended after existing entries; the forwarded headers reflect the client address and original URL", func() {
+		// the client address is what net.SplitHostPort makes of RemoteAddr (the only
+		// splitter that understands "[v6]:port"), falling back to RemoteAddr itself
+		if fm0 := w.Fn("header", "NewForwardedModifier$1"); fm0 != nil {
+			okAddr := false
+			bad := ""
+			for _, hc := range headerCalls(fm0) {
+				if !(hc.Method == "Set" || hc.Method == "Add") || hc.Key != "X-Forwarded-For" {
+					continue
+				}
+				for _, o := range concatOperands(hc.Call.Common().Args[2]) {
+					for _, leaf := range resolveAll(o) {
+						sl := w.backSlice(leaf, flowOpt{Through: map[string]bool{"strings.Join": true}, CallArg: true})
+						fromRemote := anyIn(sl, func(x ssa.Value) bool { fa, y := x.(*ssa.FieldAddr); return y && fieldObj(fa).Name() == "RemoteAddr" })
+						viaSplit := anyIn(sl, func(x ssa.Value) bool {
+							return isCallValue(x, "net.SplitHostPort") || isExtractOfCall(x, "net.SplitHostPort")
+						})
+						if viaSplit {
+							okAddr = true
+						}
+						if fromRemote && !viaSplit {
+							if _, isLd := leaf.(*ssa.UnOp); !isLd {
+								bad = describeVal(leaf)
+							}
+						}
+					}
+				}
+			}
+			r.Decide("flow", "M/header.NewForwardedModifier$1: the client address comes from net.SplitHostPort(RemoteAddr)", okAddr && bad == "", "host part of RemoteAddr by SplitHostPort, RemoteAddr itself when that fails", "the address put into X-Forwarded-For is cut out of RemoteAddr by other means ("+bad+"): an IPv6 client is forwarded with its brackets (or cut at the wrong colon)", fm0.Pos())
+		}
+
 		// Via: the new entry comes last in the Set value
 		okVia := false
 		for _, h := range headerCalls(vreq) {
